@@ -375,8 +375,14 @@ class Client(base_client.BaseClient):
             except Exception as e:  # pragma: no cover
                 raise exceptions.ConnectionError(
                     'Unexpected recv exception: ' + str(e))
-            open_packet = packet.Packet(encoded_packet=p)
-            if open_packet.packet_type != packet.OPEN:
+            try:
+                open_packet = packet.Packet(encoded_packet=p)
+            except Exception:
+                # the first frame is not an Engine.IO packet at all
+                open_packet = None
+            if open_packet is None or \
+                    open_packet.packet_type != packet.OPEN or \
+                    not isinstance(open_packet.data, dict):
                 raise exceptions.ConnectionError('no OPEN packet')
             self.logger.info(
                 'WebSocket connection accepted with ' + str(open_packet.data))
